@@ -51,7 +51,7 @@ class C08(Check):
     MAX_VIRTUAL = 3000     # (a run which cannot end is judged: a request never answered is a violation)
     TRACE_FILES = ('protocol/dispatcher.py', 'modulebase.py')
     TIERS = {'quick': {'runs': 9000, 'wall': 75}, 'thorough': {'runs': 300000, 'wall': 800}}
-    RULE = ('case = 2 generated modules (poll threads changing values) + 0..2 extra driver tasks + 1..3 wire '
+    RULE = ('[12 % focus cases: a client which stops reading for 1.5..4 s behind a receive buffer of 64..400 bytes while updates flow, then sends requests; a quarter of the cases with failing application callbacks] ' 'case = 2 generated modules (poll threads changing values) + 0..2 extra driver tasks + 1..3 wire '
             'connections with generated activate/deactivate/*IDN?/close sequences over global, module and '
             'parameter scopes; distinct = different (case digest, schedule digest); non-trivial = at least one '
             'activation completed while >= 1 cache change happened between its request and the end of the run '
